@@ -401,8 +401,11 @@ impl Xot {
         if namespace == self.no_namespace() {
             return Ok(local_name.to_string());
         }
-        // look up the prefix for the namespace
-        if let Some(prefix) = self.prefix_for_namespace(node, namespace) {
+        // look up the prefix for the namespace; the name of an attribute node
+        // cannot be written with the default namespace
+        if let Some(prefix) =
+            self.find_prefix_for_namespace(node, namespace, self.is_attribute_node(node))
+        {
             let prefix = self.prefix_str(prefix);
             if !prefix.is_empty() {
                 Ok(format!("{}:{}", prefix, local_name))
@@ -512,6 +515,17 @@ impl Xot {
     ///
     /// Returns `None` if no prefix is defined for the namespace.
     pub fn prefix_for_namespace(&self, node: Node, namespace: NamespaceId) -> Option<PrefixId> {
+        self.find_prefix_for_namespace(node, namespace, false)
+    }
+
+    // An attribute name cannot use the default namespace: with
+    // `non_empty_only` the empty prefix is never returned.
+    pub(crate) fn find_prefix_for_namespace(
+        &self,
+        node: Node,
+        namespace: NamespaceId,
+        non_empty_only: bool,
+    ) -> Option<PrefixId> {
         let mut seen = HashSet::default();
 
         for ancestor in self.ancestors(node) {
@@ -522,7 +536,7 @@ impl Xot {
                     continue;
                 }
                 seen.insert(key);
-                if *value == namespace {
+                if *value == namespace && !(non_empty_only && key == self.empty_prefix_id) {
                     return Some(key);
                 }
             }
